@@ -130,8 +130,152 @@ fn stepper_programs() -> Vec<Vec<u8>> {
     v
 }
 
+// ---- classic optimiser: if R evaluates to v in E (consensus), optimise(R) evaluates to v in E
+fn optimizer_vs_consensus(prog: &[u8], envsel: u8) -> Option<Value> {
+    use chialisp::classic::clvm_tools::stages::stage_0::{DefaultProgramRunner, TRunProgram};
+    use chialisp::classic::clvm_tools::stages::stage_2::optimize::optimize_sexp;
+    use std::rc::Rc;
+    let prog = prog.to_vec();
+    let res = catch_unwind(move || {
+        let mut a = clvmr::Allocator::new();
+        let p = match clvmr::serde::node_from_bytes(&mut a, &prog) { Ok(p) => p, Err(_) => return None };
+        let mut tag = 0u8;
+        let env = match envsel { 0 => build_tree(&mut a, 4, &mut tag), 1 => comb(&mut a, 20, true), 2 => comb(&mut a, 20, false), _ => a.nil() };
+        let runner = Rc::new(DefaultProgramRunner::new());
+        let orig = runner.run_program(&mut a, p, env, None).ok().and_then(|r| clvmr::serde::node_to_bytes(&a, r.1).ok())?;
+        let opt = match optimize_sexp(&mut a, p, runner.clone()) { Ok(o) => o, Err(e) => return Some((Some(orig), None, format!("optimizer rejected: {:?}", e))) };
+        let optb = clvmr::serde::node_to_bytes(&a, opt).ok();
+        let after = runner.run_program(&mut a, opt, env, None).ok().and_then(|r| clvmr::serde::node_to_bytes(&a, r.1).ok());
+        Some((Some(orig), after, format!("optimised program bytes {:?}", optb)))
+    });
+    match res {
+        Ok(Some((o, a, note))) if o != a => Some(hit(json!({}), format!("value of R in E: {:?}", o), format!("value of optimise(R) in E: {:?} ({})", a, note), "optimize_sexp then clvmr run_program vs clvmr run_program of the original")),
+        Err(_) => Some(hit(json!({}), "no panic".into(), "panic".into(), "optimizer panicked")),
+        _ => None,
+    }
+}
+fn hexv(hex: &str) -> Vec<u8> { (0..hex.len() / 2).map(|i| u8::from_str_radix(&hex[2 * i..2 * i + 2], 16).unwrap()).collect() }
+fn optimizer_programs() -> Vec<Vec<u8>> {
+    let mut v: Vec<Vec<u8>> = vec![];
+    // (f P), (r P), (a (q . P) 1), (a (q . (f P)) (c 1 1)) for path atoms P of various widths / bit patterns
+    let mut paths: Vec<Vec<u8>> = vec![];
+    for b in [1u8, 2, 3, 5, 6, 7, 0x3f, 0x40, 0x7f] { paths.push(vec![b]); }
+    for b in [0x80u8, 0x81, 0xc0, 0xff] { paths.push(vec![0x81, b]); }
+    for (hi, lo) in [(0x00u8, 0x80u8), (0x00, 0xff), (0x01, 0x00), (0x7f, 0xff), (0x80, 0x00), (0xff, 0x80), (0xff, 0xff)] { paths.push(vec![0x82, hi, lo]); }
+    paths.push(vec![0x83, 0x00, 0xff, 0xff]); paths.push(vec![0x83, 0xff, 0xff, 0xff]); paths.push(vec![0x84, 0x00, 0x00, 0x00, 0x07]);
+    for p in &paths {
+        for op in [5u8, 6u8] { let mut x = vec![0xff, op, 0xff]; x.extend(p); x.push(0x80); v.push(x); }
+        // (a (q . P) 1)
+        let mut x = hexv("ff02ffff01"); x.extend(p); x.extend(hexv("ffff0180")); v.push(x);
+        // (a (q . P) (c 1 1))  -- exercises sub_args / path_from_args
+        let mut x = hexv("ff02ffff01"); x.extend(p); x.extend(hexv("ffff04ff01ff018080")); v.push(x);
+    }
+    for hex in ["ff02ffff0180ffff04ff01ff018080", "ff02ffff0100ffff04ff01ff018080", "ff0101", "ff04ffff0101ffff010280", "ff02ffff01ff05ff0280ffff04ff01ff018080", "ff05ffff04ff02ff038080", "ff06ffff04ff02ff038080"] { v.push(hexv(hex)); }
+    v
+}
+
+// ---- Srcloc geometry
+fn chk_advance(line: usize, col: usize, ch: u8) -> Option<Value> {
+    use chialisp::compiler::srcloc::Srcloc;
+    use std::rc::Rc;
+    let l = Srcloc::new(Rc::new("*replay*".to_string()), line, col);
+    let r = l.advance(ch);
+    let want = if ch == 10 { (line + 1, 1) } else if ch == 9 { (line, ((col + 8) / 8) * 8) } else { (line, col + 1) };
+    if (r.line, r.col) != want || r.until.is_some() || r.file != l.file {
+        Some(hit(json!({"line": line, "col": col, "ch": ch}), format!("{:?}", want), format!("({}, {})", r.line, r.col), "Srcloc::advance vs advance_pos"))
+    } else { None }
+}
+fn chk_combine(a: (usize, usize, Option<(usize, usize)>), b: (usize, usize, Option<(usize, usize)>)) -> Option<Value> {
+    use chialisp::compiler::srcloc::{Srcloc, Until};
+    use std::rc::Rc;
+    let f = Rc::new("*replay*".to_string());
+    let mk = |x: (usize, usize, Option<(usize, usize)>)| { let mut l = Srcloc::new(f.clone(), x.0, x.1); l.until = x.2.map(|u| Until { line: u.0, col: u.1 }); l };
+    let (la, lb) = (mk(a), mk(b));
+    let end = |l: &Srcloc| match &l.until { None => (l.line, l.col + 1), Some(u) => (u.line, u.col) };
+    let r = la.ext(&lb);
+    let start = std::cmp::min((la.line, la.col), (lb.line, lb.col));
+    let hull = std::cmp::max(end(&la), end(&lb));
+    if (r.line, r.col) != start || end(&r) > hull {
+        Some(hit(json!({"a": format!("{:?}", a), "b": format!("{:?}", b)}), format!("start {:?}, end <= {:?}", start, hull), format!("start ({}, {}), end {:?}", r.line, r.col, end(&r)), "Srcloc::ext / combine_src_location vs hull spec"))
+    } else { None }
+}
+// ---- CLVM <-> rich SExp conversion, hashes, equality
+fn chk_convert(atom_or_tree: &[u8]) -> Option<Value> {
+    use chialisp::compiler::clvm::{convert_from_clvm_rs, convert_to_clvm_rs, sha256tree, NewStyleIntConversion};
+    use chialisp::compiler::srcloc::Srcloc;
+    let data = atom_or_tree.to_vec();
+    let res = catch_unwind(move || {
+        for mode in [true, false] {
+            let _g = NewStyleIntConversion::new(mode);
+            let mut a = clvmr::Allocator::new();
+            let n = match clvmr::serde::node_from_bytes(&mut a, &data) { Ok(n) => n, Err(_) => return None };
+            let rich = match convert_from_clvm_rs(&mut a, Srcloc::start("*replay*"), n) { Ok(r) => r, Err(_) => continue };
+            let back = match convert_to_clvm_rs(&mut a, rich.clone()) { Ok(b) => b, Err(_) => continue };
+            let bytes_back = clvmr::serde::node_to_bytes(&a, back).unwrap();
+            if bytes_back != data { return Some((mode, format!("round trip: {:?}", data), format!("round trip gave {:?} via {}", bytes_back, rich))); }
+            let h_rich = sha256tree(rich.clone());
+            let h_classic = chialisp::classic::clvm_tools::sha256tree::sha256tree(&mut a, n).data().clone();
+            let h_cons = clvmr::serde::node_to_bytes(&a, n).ok().map(|_| chia_tree_hash(&a, n));
+            if h_rich != h_classic || Some(h_rich.clone()) != h_cons { return Some((mode, "three tree hashes equal".into(), format!("rich {:?} classic {:?} consensus {:?}", &h_rich[..4], &h_classic[..4], h_cons.map(|h| h[..4].to_vec())))); }
+        }
+        None
+    });
+    match res {
+        Ok(Some((mode, e, o))) => Some(hit(json!({"clvm_bytes": atom_or_tree, "int_mode_new": mode}), e, o, "convert_from_clvm_rs / convert_to_clvm_rs / sha256tree on the real crate")),
+        Err(_) => Some(hit(json!({"clvm_bytes": atom_or_tree}), "no panic".into(), "panic".into(), "conversion panicked")),
+        _ => None,
+    }
+}
+fn chia_tree_hash(a: &clvmr::Allocator, n: clvmr::NodePtr) -> Vec<u8> {
+    // consensus tree hash, straight from the definition with sha2 through clvmr's own hasher is not exported; recompute
+    use clvmr::allocator::SExp;
+    match a.sexp(n) {
+        SExp::Atom => { let mut v = vec![1u8]; v.extend_from_slice(a.atom(n).as_ref()); sha256(&v) }
+        SExp::Pair(l, r) => { let mut v = vec![2u8]; v.extend(chia_tree_hash(a, l)); v.extend(chia_tree_hash(a, r)); sha256(&v) }
+    }
+}
+fn sha256(v: &[u8]) -> Vec<u8> {
+    use chialisp::classic::clvm::__type_compatibility__::{sha256 as s, Bytes, BytesFromType};
+    s(Bytes::new(Some(BytesFromType::Raw(v.to_vec())))).data().clone()
+}
+fn convert_inputs() -> Vec<Vec<u8>> {
+    let mut atoms: Vec<Vec<u8>> = vec![vec![]];
+    for b in 0u16..=0xff { atoms.push(vec![b as u8]); }
+    for hi in [0x00u8, 0x01, 0x7f, 0x80, 0x81, 0xfe, 0xff] { for lo in [0x00u8, 0x01, 0x7f, 0x80, 0x81, 0xff] { atoms.push(vec![hi, lo]); } }
+    for x in [[0x00u8, 0x00, 0x01], [0x00, 0x80, 0x00], [0xff, 0x80, 0x00], [0xff, 0xff, 0x80], [0xff, 0x7f, 0xff], [0x80, 0x00, 0x00], [0x68, 0x65, 0x6c]] { atoms.push(x.to_vec()); }
+    let mut out = vec![];
+    for at in &atoms {
+        let mut a = clvmr::Allocator::new();
+        let n = a.new_atom(at).unwrap();
+        out.push(clvmr::serde::node_to_bytes(&a, n).unwrap());
+    }
+    // a few pairs
+    for (x, y) in [(vec![0u8], vec![]), (vec![0xff, 0x80], vec![0x80]), (vec![1], vec![0, 0])] {
+        let mut a = clvmr::Allocator::new();
+        let l = a.new_atom(&x).unwrap(); let r = a.new_atom(&y).unwrap(); let p = a.new_pair(l, r).unwrap();
+        out.push(clvmr::serde::node_to_bytes(&a, p).unwrap());
+    }
+    out
+}
+
 pub fn search(name: &str, _seed: u64) -> Value {
     match name {
+        "advance" | "srcloc" | "combine_src_location" | "ext" | "add_onto" | "len" | "ending" | "src_location_max" | "src_location_min" | "from_pair" => {
+            for col in 1..70usize { for ch in 0u16..=255 { if let Some(v) = chk_advance(3, col, ch as u8) { return v; } } }
+            let locs: Vec<(usize, usize, Option<(usize, usize)>)> = { let mut v = vec![]; for l in 1..3usize { for c in 1..4usize { v.push((l, c, None)); for ul in l..3usize { for uc in 1..5usize { if (ul, uc) > (l, c) { v.push((l, c, Some((ul, uc)))); } } } } } v };
+            for a in &locs { for b in &locs { if let Some(v) = chk_combine(*a, *b) { return v; } } }
+            nf("Srcloc::advance agrees with advance_pos for cols 1..70 x all bytes; ext agrees with the hull spec on small locations")
+        }
+        "convert_from_clvm_rs" | "convert_to_clvm_rs" | "convert" | "sha256tree" | "sha256tree_from_atom" | "number_from_u8" | "u8_from_number" => {
+            for d in convert_inputs() { if let Some(v) = chk_convert(&d) { return v; } }
+            nf("conversion round trip and the three tree hashes agree on the enumerated values in both integer modes")
+        }
+        "path_optimizer" | "sub_args" | "path_from_args" | "optimize_sexp" | "path_number_from_u8" | "new" | "add" | "first" | "rest" | "as_path" | "seems_constant" => {
+            for p in optimizer_programs() { for e in 0..3u8 {
+                if let Some(mut v) = optimizer_vs_consensus(&p, e) { v["input"] = json!({"program": p, "env": e}); return v; }
+            } }
+            nf("optimize_sexp preserves the value of the enumerated programs x 3 environments")
+        }
         "choose_path" | "flatten_signed_int" | "truthy" | "atom_value" | "run_step" | "combine" | "eval_args" | "generate_argument_refs" => {
             for p in stepper_programs() { for e in 0..4u8 {
                 if let Some(mut v) = step_vs_consensus(&p, e) { v["input"] = json!({"program": p, "env": e}); return v; }
@@ -154,6 +298,10 @@ pub fn search(name: &str, _seed: u64) -> Value {
 
 pub fn run_input(name: &str, input: &Value) -> Value {
     match name {
+        "advance" | "srcloc" => chk_advance(input["line"].as_u64().unwrap_or(1) as usize, input["col"].as_u64().unwrap_or(1) as usize, input["ch"].as_u64().unwrap_or(0) as u8).unwrap_or_else(|| nf("input does not violate the contract on this tree")),
+        "convert_from_clvm_rs" | "convert_to_clvm_rs" | "convert" | "sha256tree" => chk_convert(&bytes(&input["clvm_bytes"])).unwrap_or_else(|| nf("input does not violate the contract on this tree")),
+        "path_optimizer" | "sub_args" | "path_from_args" | "optimize_sexp" | "path_number_from_u8" | "new" | "add" | "first" | "rest" | "as_path" | "seems_constant" =>
+            optimizer_vs_consensus(&bytes(&input["program"]), input["env"].as_u64().unwrap_or(0) as u8).unwrap_or_else(|| nf("input does not violate the contract on this tree")),
         "choose_path" | "flatten_signed_int" | "truthy" | "atom_value" | "run_step" | "combine" | "eval_args" | "generate_argument_refs" =>
             step_vs_consensus(&bytes(&input["program"]), input["env"].as_u64().unwrap_or(0) as u8).unwrap_or_else(|| nf("input does not violate the contract on this tree")),
         "atom_from_stream" | "sexp_from_stream" | "int_from_bytes" | "get_u32" | "read" => chk_deser(&bytes(&input["bytes"])).unwrap_or_else(|| nf("input does not violate the contract on this tree")),
